@@ -576,6 +576,8 @@ def _membership(val, idx, col, carried):
                 return 'other column'
         return False
     adm = None
+    if val[0] == 'meth' and val[1] in ('sum', 'mean', 'any', 'max'):
+        val = ('call', 'numpy.' + val[1], (val[2],) + tuple(val[3]), tuple(val[4]))     # (a == b).sum(axis=1) is np.sum(a == b, axis=1)
     if val[0] == 'call' and val[1] in ('numpy.sum', 'numpy.mean', 'numpy.any', 'numpy.max', 'numpy.count_nonzero') \
             and len(val[2]) >= 1 and val[2][0][0] == 'cmp':       # all of them are non-zero exactly when some pair is equal
         cm = val[2][0]
